@@ -507,6 +507,22 @@ class Driver:
                         if isinstance(a, tuple) and a[0] == "PPrepOk":
                             self.stmts[a[1]] = dict(nparams=a[2])
 
+    def payload_early(self, kind, sid=0):
+        """a command sent while the server is still busy with the previous one (pipelining): it waits in the server's read buffer.
+        Only commands whose handling needs none of this driver's per-command bookkeeping."""
+        data, term = {"ping": (bytes([cl.COM_PING]), "CPing"), "debug": (bytes([cl.COM_DEBUG]), "CDebug"),
+                      "resetconn": (bytes([cl.COM_RESET_CONNECTION]), "CResetConn"), "unknown": (bytes([0x7F]), "CUnknown"),
+                      "close": (bytes([cl.COM_STMT_CLOSE]) + struct.pack("<I", sid), f"CClose {sid}")}[kind]
+        if kind == "close":
+            getattr(self, "ld_half", set()).discard(sid)
+            self.stmts.pop(sid, None)
+        self.pipelined = True
+        keep = self._cmd
+        self._cmd = (kind, "early")
+        self.reader.feed_data(cl.frame(data, 0))
+        self.record(f"EvPayload ({term})")
+        self._cmd = keep
+
     def pending_call(self):
         for ob in reversed([self.boot_obs] + self.obs):
             calls = [o[1] for o in ob[0] if isinstance(o, tuple) and o[0] == "OSess"]
@@ -720,7 +736,7 @@ def gen_items(rng, allow_async=True, allow_raise=True, maxrows=12):
     return items, asynchronous
 
 
-def random_walk(rng, d: Driver, nsteps, faults=True, kills=True, auth_variants=True, pauses=False, app_failures=None):
+def random_walk(rng, d: Driver, nsteps, faults=True, kills=True, auth_variants=True, pauses=False, app_failures=None, pipeline=False):
     """Drive `d` with events that are meaningful at the current blocking point (plus always-possible ones)."""
     last_app = None
     if app_failures is None:
@@ -741,6 +757,10 @@ def random_walk(rng, d: Driver, nsteps, faults=True, kills=True, auth_variants=T
             continue
         if kills and r < 0.10:
             d.kill(rng.choice(["KQ", "KQ", "KC"]), selfkill=False)
+            continue
+        if pipeline and b in ("app", "row", "sleep", "drain") and d.last_cmd and d.last_cmd[0] != "changeuser" and d.init_returned and r < 0.3:
+            # the client does not wait for the response: the next command is already on its way
+            d.payload_early(rng.choice(["ping", "debug", "resetconn", "unknown", "close", "ping"]), sid=rng.choice(list(d.stmts) or [0]))
             continue
         if d.writer.paused and b == "drain":
             if kills and rng.random() < 0.3:
